@@ -80,3 +80,48 @@ func TestConflictingExports(t *testing.T) {
 		h.R.Case(t, "conflict", string(key), c, []string{"two-modules-export-one-name:" + kind}, true, checkConflict(c))
 	})
 }
+
+// "An imported method behaves as it does inside its own module" also when that module holds
+// nothing else: a module whose ONLY definition refers to itself (a recursive method, a type
+// whose method creates an object of its own type), imported whole or by name, directly or
+// through another module.
+
+type loneCase struct {
+	Name string            `json:"name"`
+	Src  string            `json:"src"`
+	Mods map[string]string `json:"modules"`
+	Want string            `json:"want"`
+}
+
+var loneCases = []loneCase{
+	{"a recursive method is the only definition of its module", "导入“甲”\n输出（阶乘：5）",
+		map[string]string{"甲": "如何阶乘？\n    输入N\n    如果N <= 1：\n        输出1\n    输出N * （阶乘：N - 1）\n"}, "120"},
+	{"... imported by name", "导入“甲”之阶乘\n输出（阶乘：6）",
+		map[string]string{"甲": "如何阶乘？\n    输入N\n    如果N <= 1：\n        输出1\n    输出N * （阶乘：N - 1）\n"}, "720"},
+	{"... used by a method of another module that imports it", "导入“乙”\n输出（用：4）",
+		map[string]string{"甲": "如何阶乘？\n    输入N\n    如果N <= 1：\n        输出1\n    输出N * （阶乘：N - 1）\n", "乙": "导入“甲”\n如何用？\n    输入N\n    输出（阶乘：N） + 1\n"}, "25"},
+	{"a type whose method creates an object of its own type is the only definition of its module", "导入“丙”\n令首 = （新建节点）\n输出以首（生：3）之深",
+		map[string]string{"丙": "定义节点：\n    其深 = 0\n    如何生？\n        输入N\n        如果N <= 0：\n            输出此\n        令子 = （新建节点）\n        子之深 = 其深 + 1\n        输出以子（生：N - 1）\n"}, "3"},
+	{"two definitions, for comparison", "导入“丁”\n输出（阶乘：5）",
+		map[string]string{"丁": "如何阶乘？\n    输入N\n    如果N <= 1：\n        输出1\n    输出N * （阶乘：N - 1）\n如何旁法？\n    输出0\n"}, "120"},
+}
+
+func checkLone(c loneCase) []h.Failure {
+	o := h.Run(c.Src, h.Opts{Modules: c.Mods})
+	desc := fmt.Sprintf("%s\nmain program:\n%s\nmodules: %v", c.Name, c.Src, c.Mods)
+	switch o.Kind {
+	case h.KPanic, h.KBudget, h.KNil:
+		return []h.Failure{{Sig: "lone/" + o.Kind + "@" + o.PanicSite, Msg: desc + "\n" + o.PanicMsg}}
+	}
+	if o.Kind != h.KValue || o.ValText != c.Want {
+		return []h.Failure{{Sig: "lone/imported-definition-cannot-use-itself", Msg: fmt.Sprintf("%s\nexpected %s, got %s", desc, c.Want, o.Short())}}
+	}
+	return nil
+}
+
+func TestLoneDefinitions(t *testing.T) {
+	for _, c := range loneCases {
+		h.R.Case(t, "lone", c.Name, c, []string{"module-with-one-self-referring-definition"}, true, checkLone(c))
+	}
+	h.R.Exhaustive("lone", fmt.Sprintf("%d listed programs", len(loneCases)))
+}
